@@ -4,7 +4,7 @@
    otto's own array code (C08/Model.v, C08/Sort.v).  The correspondence run
    ties both to the interpreter built from /repo on every generated history. *)
 From Coq Require Import ZArith List Bool.
-From Otto Require Import Common.Double C08.Spec C08.Model C08.Sort C08.Proofs C08.Invariant C08.Names.
+From Otto Require Import Common.Double C08.Spec C08.Model C08.Sort C08.Proofs C08.Invariant C08.Names C08.Refine.
 Import ListNotations.
 Open Scope Z_scope.
 
@@ -28,31 +28,28 @@ Theorem C08_indexof_start : forall v len, 0 <= len < 2 ^ 53 ->
 Proof. exact indexof_agree. Qed.
 Print Assumptions C08_indexof_start.
 
-(* lastIndexOf (15.4.4.15 steps 5-7) agrees for every fromIndex except ToInteger(fromIndex) = len ... *)
+(* the start index of lastIndexOf (15.4.4.15 steps 5-7), for every fromIndex (fromIndex = len included) *)
 Theorem C08_lastindexof_start : forall v len, 0 <= len < 2 ^ 53 ->
-  to_integer v <> Some (XI len) -> otto_lastindexof v len = dia_lastindexof es5 v len.
+  otto_lastindexof v len = dia_lastindexof es5 v len.
 Proof. exact lastindexof_agree. Qed.
 Print Assumptions C08_lastindexof_start.
-(* ... where otto starts one past the end *)
-Theorem C08_lastindexof_refuted : exists v len, otto_lastindexof v len <> dia_lastindexof es5 v len.
-Proof. exists (VNum 2), 2. vm_compute. discriminate. Qed.
-Print Assumptions C08_lastindexof_refuted.
 
 (* 15.4.5.1 step 3.d: arrayUint32 raises RangeError exactly when ToUint32(v) <> ToNumber(v), for every value *)
 Theorem C08_invalid_length_rangeerror : forall v, otto_array_uint32 v = valid_length v.
 Proof. exact array_uint32_agree. Qed.
 Print Assumptions C08_invalid_length_rangeerror.
 
-(* only canonical array-index strings are indices: true of otto on names without sign and without
-   superfluous leading zero ... *)
-Theorem C08_array_index_partial : forall s, plain s = true ->
-  stringToArrayIndex s = array_index (key_of_string s).
-Proof. exact array_index_plain. Qed.
-Print Assumptions C08_array_index_partial.
-(* ... and false on "01", "+1", "-0" *)
-Theorem C08_array_index_refuted : exists s, stringToArrayIndex s <> array_index (key_of_string s).
-Proof. exists [48; 49]. vm_compute. discriminate. Qed.
-Print Assumptions C08_array_index_refuted.
+(* only canonical array-index strings are indices: stringToArrayIndex (ParseInt, range, and the
+   FormatInt(index) == name comparison) is the ES5 test ToString(ToUint32(P)) = P /\ ToUint32(P) <> 2^32-1,
+   for EVERY string ("01", "+1", "-0", "4294967295", overlong digit strings, ... included) *)
+Theorem C08_array_index : forall s, stringToArrayIndex s = array_index (key_of_string s).
+Proof. exact array_index_all. Qed.
+Print Assumptions C08_array_index.
+
+(* a canonical decimal string is the printing of its value and nothing else is *)
+Theorem C08_canonical_names : forall s n, canon_dec s = Some n <-> (0 <= n /\ dec n = s).
+Proof. exact canonical_names. Qed.
+Print Assumptions C08_canonical_names.
 
 (* THE LENGTH INVARIANT.  inv o: the length property is a non-configurable data property holding an
    integer n >= 0 and every own property named by an array index i has i < n.  The ES5 array
@@ -82,10 +79,23 @@ Theorem C08_shrink_exact : forall o oldLen newLen o' res n,
 Proof. exact shrink_exact. Qed.
 Print Assumptions C08_shrink_exact.
 
-(* otto's arrayDefineOwnProperty departs from 15.4.5.1 on non-canonical names and on an unchanged length *)
-Theorem C08_define_refuted : exists o k d, otto_def_array true true o k d true <> def_array o k d true.
-Proof. exists (lit_obj [] []), (KS [48; 49]), (desc_full (VNum 1)). vm_compute. discriminate. Qed.
-Print Assumptions C08_define_refuted.
+(* otto's arrayDefineOwnProperty (type_array.go, with its repeated definitions through the fall-through)
+   refines 15.4.5.1: on an array satisfying the invariant and for every name on which the index tests agree,
+   same outcome and an object with the same properties ... *)
+Theorem C08_define_refines : forall o k d t, inv o -> otto_key_index k = array_index k ->
+  snd (otto_def_array o k d t) = snd (def_array o k d t) /\
+  own_eq (fst (otto_def_array o k d t)) (fst (def_array o k d t)).
+Proof. exact otto_def_array_refines. Qed.
+Print Assumptions C08_define_refines.
+(* ... the index tests agree on every name a script can write ... *)
+Theorem C08_define_names : forall s, otto_key_index (key_of_string s) = array_index (key_of_string s).
+Proof. exact key_index_of_string. Qed.
+Print Assumptions C08_define_names.
+(* ... so otto's arrayDefineOwnProperty keeps the length invariant too *)
+Theorem C08_otto_define_keeps_invariant : forall o k d t, inv o -> otto_key_index k = array_index k ->
+  inv (fst (otto_def_array o k d t)).
+Proof. exact otto_def_array_inv. Qed.
+Print Assumptions C08_otto_define_keeps_invariant.
 
 (* ToString(n) of every integer n >= 0 is classified as the name KI n (so the 15.4.4 algorithms, which
    address elements by ToString(k), address exactly KI k), it is an array index exactly when n < 2^32 - 1,
@@ -107,7 +117,9 @@ Example C08_invariant_met : inv (lit_obj [] [Some (VNum 1); None; Some (VNum 3)]
   len_of (final (lit_obj [] [Some (VNum 1); None; Some (VNum 3)])
                 [OSet (KI 7) VNull; OSet KLen (VNum 1); ODef (KI 0) (mkD (Some VNull) None None (Some false)); OSet KLen (VNum 0)]) = 1.
 Proof. split; [apply lit_inv | split; [repeat constructor | vm_compute; reflexivity]]. Qed.
-Example C08_plain_met : plain [52; 50] = true /\ stringToArrayIndex [52; 50] = Some 42.
-Proof. vm_compute. split; reflexivity. Qed.
-Example C08_lastindexof_guard_met : to_integer (VNum 1) <> Some (XI 3) /\ otto_lastindexof (VNum 1) 3 = Some (Some 1).
-Proof. split; [discriminate | reflexivity]. Qed.
+Example C08_names_met : stringToArrayIndex [52; 50] = Some 42 /\ stringToArrayIndex [48; 49] = None /\
+  stringToArrayIndex [43; 49] = None /\ stringToArrayIndex [45; 48] = None /\
+  stringToArrayIndex [52; 50; 57; 52; 57; 54; 55; 50; 57; 53] = None.
+Proof. vm_compute. repeat split. Qed.
+Example C08_define_guard_met : inv (lit_obj [] [Some VNull]) /\ otto_key_index (key_of_string [48; 49]) = array_index (key_of_string [48; 49]).
+Proof. split; [apply lit_inv | reflexivity]. Qed.
